@@ -4,6 +4,7 @@ import (
 	"bytes"
 	"encoding/json"
 	"fmt"
+	"os"
 	"strings"
 )
 
@@ -140,6 +141,32 @@ func readPosClass(in []byte, j int) string {
 		return "in-entity"
 	}
 	return "in-text"
+}
+
+// failingFile returns an *os.File on which every write fails, and its cleanup.
+func failingFile(kind string) (*os.File, func()) {
+	switch kind {
+	case "devfull":
+		f, err := os.OpenFile("/dev/full", os.O_WRONLY, 0)
+		if err != nil {
+			return nil, nil
+		}
+		return f, func() { f.Close() }
+	case "readonly":
+		f, err := os.Open("/dev/null") // opened for reading only: write(2) gives EBADF
+		if err != nil {
+			return nil, nil
+		}
+		return f, func() { f.Close() }
+	case "brokenpipe":
+		r, w, err := os.Pipe()
+		if err != nil {
+			return nil, nil
+		}
+		r.Close()
+		return w, func() { w.Close() }
+	}
+	return nil, nil
 }
 
 func sampleIdx(r *RNG, n, max int) []int {
@@ -285,6 +312,9 @@ func runC16(planJSON []byte) (*RunResult, error) {
 			case buf.Len() != 0:
 				viol(f, "C16/reader-nonempty-buffer", site, "SanitizeReader returned "+clip(buf.Bytes(), 60)+" after a source failure",
 					buf.String(), "")
+			default:
+				// the buffer now belongs to the caller, who may well write into it
+				buf.WriteString("<!-- written by the caller into its own buffer -->")
 			}
 			return ex, true
 		}
@@ -313,6 +343,22 @@ func runC16(planJSON []byte) (*RunResult, error) {
 		return ex, true
 	}
 
+	if pl.Only != nil && strings.HasPrefix(pl.Only.Writer, "osfile:") {
+		kind := strings.TrimPrefix(pl.Only.Writer, "osfile:")
+		if w, cleanup := failingFile(kind); w != nil {
+			p := BuildPolicy(pl.Recipe)
+			var err error
+			pan := guarded(func() { err = p.SanitizeReaderToWriter(NewSimReader(pl.Input, base), w) })
+			cleanup()
+			res.Evals++
+			if pan == "" && err == nil && len(ff["sw"].Accepted) > 0 {
+				res.Violations = append(res.Violations, Violation{Property: "C16", Oracle: "C16/write-error-swallowed", Site: "osfile-" + kind,
+					Detail: "SanitizeReaderToWriter returned nil although every write to the *os.File destination fails (" + kind + ")", Plan: planJSON})
+			}
+		}
+		res.Digest = digestBytes(dig.Bytes())
+		return res, nil
+	}
 	if pl.Only != nil {
 		f := *pl.Only
 		switch {
@@ -342,6 +388,33 @@ func runC16(planJSON []byte) (*RunResult, error) {
 	}
 	likeR := pl.Like == nil || (pl.Like.R != nil && pl.Like.W == nil)
 	likeC := pl.Like == nil || (pl.Like.R != nil && pl.Like.W != nil)
+
+	// ---- destinations of dynamic type *os.File that the kernel fails: /dev/full (ENOSPC), a file
+	// opened read-only (EBADF), a pipe whose read end is closed (EPIPE).  Only "non-nil error" can
+	// be observed here.
+	if pl.Like == nil && len(ff["sw"].Accepted) > 0 {
+		for _, kind := range []string{"devfull", "readonly", "brokenpipe"} {
+			w, cleanup := failingFile(kind)
+			if w == nil {
+				res.count("osfile_dest_unavailable."+kind, 1)
+				continue
+			}
+			p := BuildPolicy(pl.Recipe)
+			var err error
+			pan := guarded(func() { err = p.SanitizeReaderToWriter(NewSimReader(pl.Input, base), w) })
+			cleanup()
+			res.Evals++
+			res.Nontrivial++
+			res.count("osfile_dest."+kind, 1)
+			fmt.Fprintf(dig, "osfile %s err=%v pan=%q\n", kind, err != nil, pan)
+			if pan == "" && err == nil {
+				cp := pl
+				cp.Only, cp.Like = &C16Fault{Writer: "osfile:" + kind}, nil
+				res.Violations = append(res.Violations, Violation{Property: "C16", Oracle: "C16/write-error-swallowed", Site: "osfile-" + kind,
+					Detail: "SanitizeReaderToWriter returned nil although every write to the *os.File destination fails (" + kind + ")", Plan: mustJSON(cp)})
+			}
+		}
+	}
 
 	// ---- writer faults: every index (all when w<=64) x every kind x both writer kinds ----
 	ff["rich"], ff["plainflush"] = ff["sw"], ff["plain"] // same write sequences, other optional methods
